@@ -503,8 +503,8 @@ pub fn evaluate(
                         violations.push(mem_violation(
                             "mem:heap-grows-with-work",
                             format!(
-                                "peak VM heap {h2} bytes with size parameter {} vs {h1} bytes with {n} ({} vs {steps1} instructions) although the reachable data is constant",
-                                4 * n, result.steps
+                                "peak VM heap {h2} bytes (per thread {:?}) with size parameter {} vs {h1} bytes with {n} ({} vs {steps1} instructions) although the reachable data is constant",
+                                result.peak_heap_threads, 4 * n, result.steps
                             ),
                         ));
                     } else if proc2 as f64 > 1.5 * proc1 as f64 + 262_144.0 {
